@@ -14,6 +14,17 @@ pub fn memstr(haystack: &[u8], needle: &[u8]) -> Option<usize> {
     crate::utils::memstr(haystack, needle)
 }
 
+/// C10: the start marker search of the tokenizer (`compiler::lexer::find_start_marker`) on
+/// `source[offset..]`: offset of the match relative to `offset`, kind of marker (`v`ariable,
+/// `b`lock, `c`omment, line `s`tatement, `l`ine comment), length of the matched start delimiter.
+pub fn find_start_marker(
+    source: &str,
+    offset: usize,
+    syntax: &crate::syntax::SyntaxConfig,
+) -> Option<(usize, char, usize)> {
+    crate::compiler::lexer::verif_find_start_marker(source, offset, syntax)
+}
+
 /// C11: thread-local high-water marks of nested interpreter activations
 /// (`Executor::eval_impl`) and of `Context::depth()`, plus the stack pointer
 /// at the outermost and at the deepest activation.
